@@ -30,18 +30,18 @@ fn pattern_name() -> &'static String {
     }
 }
 
-fn stub_parsing_input_new<'a>(_table: &'a TableDefinition, _line: &'a str) -> ParsingInput<'a> where 'a: 'a {
+/// The environment's answer for one line, built directly (ParsingInput's fields are visible to this child
+/// module): whether the pattern took part, its split fields, and the parsed JSON document.
+fn parsing_input<'a>(matched: bool, fields: &[&'a str], json: serde_json::Value) -> ManuallyDrop<ParsingInput<'a>> {
     let mut regex_results = ShimMap::new();
-    unsafe {
-        if PATTERN_MATCHED {
-            let mut fields: Vec<&'a str> = Vec::new();
-            if NUM_FIELDS > 0 { fields.push(FIELDS[0].unwrap()); }
-            if NUM_FIELDS > 1 { fields.push(FIELDS[1].unwrap()); }
-            if NUM_FIELDS > 2 { fields.push(FIELDS[2].unwrap()); }
-            regex_results.insert(pattern_name(), RegexResult::Split(fields));
-        }
-        ParsingInput { regex_results, json_value: JSON.take().unwrap_or(serde_json::Value::Null) }
+    if matched {
+        let mut v: Vec<&'a str> = Vec::new();
+        if fields.len() > 0 { v.push(fields[0]); }
+        if fields.len() > 1 { v.push(fields[1]); }
+        if fields.len() > 2 { v.push(fields[2]); }
+        regex_results.insert(pattern_name(), RegexResult::Split(v));
     }
+    ManuallyDrop::new(ParsingInput { regex_results, json_value: json })
 }
 
 /// a symbolic field of at most 2 bytes over an alphabet that contains digits, sign, a letter and a space
@@ -92,15 +92,13 @@ macro_rules! extraction_proof {
         #[kani::stub(<chrono::Local as chrono::TimeZone>::offset_from_utc_datetime, crate::verif_kani::common::stub_offset_from_utc_datetime)]
         #[kani::stub(chrono::NaiveDateTime::parse_from_str, crate::verif_kani::common::stub_naive_parse_from_str)]
         #[kani::stub(alloc::fmt::format, crate::verif_kani::common::stub_format)]
-        #[kani::stub(crate::data_model::ParsingInput::new, stub_parsing_input_new)]
         $(#[$m])*
         fn $name() $body
     };
 }
 
-fn cell_int(row: &Row, i: usize) -> Option<i64> { if let Some(Value::Int(x)) = row.columns.get(i) { Some(*x) } else { None } }
-fn cell_null(row: &Row, i: usize) -> bool { matches!(row.columns.get(i), Some(Value::Null)) }
-fn cell_bool(row: &Row, i: usize) -> Option<bool> { if let Some(Value::Bool(x)) = row.columns.get(i) { Some(*x) } else { None } }
+fn v_int(v: &Value) -> Option<i64> { if let Value::Int(x) = v { Some(*x) } else { None } }
+fn v_bool(v: &Value) -> Option<bool> { if let Value::Bool(x) = v { Some(*x) } else { None } }
 
 // ------------------------------------------------------------------------------------------------
 // C01: one INT column on split field 1, with or without DEFAULT: the value is exactly the literal of the
@@ -114,22 +112,18 @@ extraction_proof! {
         kani::assume(nfields >= 1 && nfields <= 2);
         let has_default: bool = kani::any();
         let d: i64 = kani::any();
-        unsafe {
-            PATTERN_MATCHED = matched;
-            NUM_FIELDS = nfields;
-            FIELDS = [Some("whole line"), Some(field), None];
-        }
-        let column = regex_column(1, ValueType::Int, true, if has_default { Some(Value::Int(d)) } else { None });
-        let table = ManuallyDrop::new(TableDefinition::new("t", Vec::new(), vec![column]).unwrap());
-        let row = ManuallyDrop::new(table.extract(""));
+        let all = ["whole line", field];
+        let input = parsing_input(matched, &all[..nfields], serde_json::Value::Null);
+        let column = ManuallyDrop::new(regex_column(1, ValueType::Int, true, if has_default { Some(Value::Int(d)) } else { None }));
+        let value = ManuallyDrop::new(column.parsing.extract(&column, &input));
         let took_part = matched && nfields == 2;
         if !took_part {
-            if has_default { assert!(cell_int(&row, 0) == Some(d), "C01 DEFAULT when the pattern or group did not take part"); }
-            else { assert!(row.columns.is_empty() || cell_null(&row, 0), "C01 NULL when the pattern or group did not take part"); }
+            if has_default { assert!(v_int(&value) == Some(d), "C01 DEFAULT when the pattern or group did not take part"); }
+            else { assert!(value.is_null(), "C01 NULL when the pattern or group did not take part"); }
         } else {
             match ref_int(len, b0, b1) {
-                Some(v) => assert!(cell_int(&row, 0) == Some(v), "C01 the column holds exactly the literal of the referenced field"),
-                None => assert!(cell_null(&row, 0), "C01 NULL when the text is not a literal of the type (DEFAULT is not used)"),
+                Some(v) => assert!(v_int(&value) == Some(v), "C01 the column holds exactly the literal of the referenced field"),
+                None => assert!(value.is_null(), "C01 NULL when the text is not a literal of the type (DEFAULT is not used)"),
             }
         }
         kani::cover!(took_part && ref_int(len, b0, b1).is_none() && has_default, "c01: unparsable with DEFAULT reachable");
@@ -144,37 +138,37 @@ extraction_proof! {
         let (_len, _b0, _b1, field) = any_field();
         let nfields: usize = kani::any();
         kani::assume(nfields >= 1 && nfields <= 2);
-        unsafe { PATTERN_MATCHED = true; NUM_FIELDS = nfields; FIELDS = [Some("whole line"), Some(field), None]; }
-        let column = regex_column(1, ValueType::Bool, true, None);
-        let table = ManuallyDrop::new(TableDefinition::new("t", Vec::new(), vec![column]).unwrap());
-        let row = ManuallyDrop::new(table.extract(""));
-        assert!(cell_bool(&row, 0) == Some(nfields == 2), "C01 BOOLEAN means the group's existence");
+        let all = ["whole line", field];
+        let input = parsing_input(true, &all[..nfields], serde_json::Value::Null);
+        let column = ManuallyDrop::new(regex_column(1, ValueType::Bool, true, None));
+        let value = ManuallyDrop::new(column.parsing.extract(&column, &input));
+        assert!(v_bool(&value) == Some(nfields == 2), "C01 BOOLEAN means the group's existence");
         kani::cover!(nfields == 1, "c01 bool: absent reachable");
     }
 }
 
-// a value is never taken from another field: two INT columns on fields 1 and 2
+// a value is never taken from another field: the column on group g (1 or 2, symbolic) holds field g
 extraction_proof! {
     #[kani::unwind(4)]
-    fn c01_split_two_columns() {
+    fn c01_split_own_field() {
         let (l1, a0, a1, f1) = any_field();
         let (l2, c0, c1, f2) = any_field();
-        unsafe { PATTERN_MATCHED = true; NUM_FIELDS = 3; FIELDS = [Some("whole line"), Some(f1), Some(f2)]; }
-        let swap: bool = kani::any();
-        let (g1, g2) = if swap { (2, 1) } else { (1, 2) };
-        let table = ManuallyDrop::new(TableDefinition::new("t", Vec::new(), vec![regex_column(g1, ValueType::Int, true, None), regex_column(g2, ValueType::Int, true, None)]).unwrap());
-        let row = ManuallyDrop::new(table.extract(""));
-        let (e1, e2) = (ref_int(l1, a0, a1), ref_int(l2, c0, c1));
-        let (x1, x2) = if swap { (e2, e1) } else { (e1, e2) };
-        if x1.is_some() || x2.is_some() {
-            assert!(cell_int(&row, 0) == x1 && (x1.is_some() || cell_null(&row, 0)), "C01 each column holds its own field");
-            assert!(cell_int(&row, 1) == x2 && (x2.is_some() || cell_null(&row, 1)), "C01 each column holds its own field");
+        let g: usize = kani::any();
+        kani::assume(g == 1 || g == 2);
+        let all = ["whole line", f1, f2];
+        let input = parsing_input(true, &all[..], serde_json::Value::Null);
+        let column = ManuallyDrop::new(regex_column(g, ValueType::Int, true, None));
+        let value = ManuallyDrop::new(column.parsing.extract(&column, &input));
+        let expected = if g == 1 { ref_int(l1, a0, a1) } else { ref_int(l2, c0, c1) };
+        match expected {
+            Some(v) => assert!(v_int(&value) == Some(v), "C01 each column holds its own field"),
+            None => assert!(value.is_null(), "C01 each column holds its own field"),
         }
-        kani::cover!(x1.is_some() && x2.is_some() && swap, "c01 two columns: both parsed, swapped reachable");
+        kani::cover!(g == 2 && expected.is_some(), "c01 own field: second field parsed reachable");
     }
 }
 
-// array column assembled position by position; NULL element keeps its place; DEFAULT/NULL only when every element is NULL
+// array column assembled position by position; a NULL element keeps its place; NULL only when every element is NULL
 extraction_proof! {
     #[kani::unwind(4)]
     fn c01_split_array() {
@@ -182,21 +176,21 @@ extraction_proof! {
         let (l2, c0, c1, f2) = any_field();
         let nfields: usize = kani::any();
         kani::assume(nfields >= 1 && nfields <= 3);
-        unsafe { PATTERN_MATCHED = true; NUM_FIELDS = nfields; FIELDS = [Some("whole line"), Some(f1), Some(f2)]; }
+        let all = ["whole line", f1, f2];
+        let input = parsing_input(true, &all[..nfields], serde_json::Value::Null);
         let mut options = ColumnOptions::new();
         options.nullable = true;
-        let column = ColumnDefinition::with_options(
+        let column = ManuallyDrop::new(ColumnDefinition::with_options(
             ColumnParsing::MultiRegex(vec![RegexResultReference { pattern_name: pattern_name().clone(), group_index: 1 },
                                            RegexResultReference { pattern_name: pattern_name().clone(), group_index: 2 }]),
-            "c", ValueType::Array(Box::new(ValueType::Int)), options);
-        let table = ManuallyDrop::new(TableDefinition::new("t", Vec::new(), vec![column]).unwrap());
-        let row = ManuallyDrop::new(table.extract(""));
+            "c", ValueType::Array(Box::new(ValueType::Int)), options));
+        let value = ManuallyDrop::new(column.parsing.extract(&column, &input));
         let e1 = if nfields >= 2 { ref_int(l1, a0, a1) } else { None };
         let e2 = if nfields >= 3 { ref_int(l2, c0, c1) } else { None };
         if e1.is_none() && e2.is_none() {
-            assert!(row.columns.is_empty() || cell_null(&row, 0), "C01 an array whose elements are all NULL is NULL");
+            assert!(value.is_null(), "C01 an array whose elements are all NULL is NULL");
         } else {
-            let ok = if let Some(Value::Array(ValueType::Int, items)) = row.columns.get(0) {
+            let ok = if let Value::Array(ValueType::Int, items) = &*value {
                 items.len() == 2
                     && match (&items[0], e1) { (Value::Int(x), Some(v)) => *x == v, (Value::Null, None) => true, _ => false }
                     && match (&items[1], e2) { (Value::Int(x), Some(v)) => *x == v, (Value::Null, None) => true, _ => false }
@@ -208,33 +202,23 @@ extraction_proof! {
 }
 
 // ------------------------------------------------------------------------------------------------
-// C06 part 1: the admission rule - a line becomes a row iff some column is non-NULL (DEFAULT counts)
-// and every NOT NULL column is non-NULL.  Two INT columns on fields 1 and 2, modifiers symbolic.
+// C06 part 1: the admission rule of TableDefinition::extract - a line becomes a row iff some column is
+// non-NULL (DEFAULT counts) and every NOT NULL column is non-NULL.  Tables without patterns: every regex
+// column yields its DEFAULT or NULL, so the NULL pattern is chosen through the DEFAULTs (symbolic).
 extraction_proof! {
     #[kani::unwind(4)]
     fn c06_admission_two_columns() {
-        let (l1, a0, a1, f1) = any_field();
-        let (l2, c0, c1, f2) = any_field();
-        let nfields: usize = kani::any();
-        kani::assume(nfields >= 1 && nfields <= 3);
-        let matched: bool = kani::any();
-        unsafe { PATTERN_MATCHED = matched; NUM_FIELDS = nfields; FIELDS = [Some("whole line"), Some(f1), Some(f2)]; }
+        let (d1, d2): (bool, bool) = (kani::any(), kani::any());
         let (nullable1, nullable2): (bool, bool) = (kani::any(), kani::any());
-        let has_default1: bool = kani::any();
         let table = ManuallyDrop::new(TableDefinition::new("t", Vec::new(), vec![
-            regex_column(1, ValueType::Int, nullable1, if has_default1 { Some(Value::Int(0)) } else { None }),
-            regex_column(2, ValueType::Int, nullable2, None)]).unwrap());
+            regex_column(1, ValueType::Int, nullable1, if d1 { Some(Value::Int(0)) } else { None }),
+            regex_column(2, ValueType::Int, nullable2, if d2 { Some(Value::Int(0)) } else { None })]).unwrap());
         let row = ManuallyDrop::new(table.extract(""));
-        // expected column values
-        let took1 = matched && nfields >= 2;
-        let took2 = matched && nfields >= 3;
-        let v1_nonnull = if took1 { ref_int(l1, a0, a1).is_some() } else { has_default1 };
-        let v2_nonnull = took2 && ref_int(l2, c0, c1).is_some();
-        let expected = (v1_nonnull || v2_nonnull) && (nullable1 || v1_nonnull) && (nullable2 || v2_nonnull);
+        let expected = (d1 || d2) && (nullable1 || d1) && (nullable2 || d2);
         assert!(row.any_result() == expected, "C06 a line becomes a row iff a column is non-NULL and every NOT NULL column is non-NULL");
         if expected { assert!(row.columns.len() == 2, "C06 an admitted row has every column"); }
         kani::cover!(expected && !nullable1 && !nullable2, "c06 admission: two NOT NULL columns admitted reachable");
-        kani::cover!(!expected && v2_nonnull && !nullable1, "c06 admission: rejected by the first NOT NULL column reachable");
+        kani::cover!(!expected && d2 && !nullable1, "c06 admission: rejected by the first NOT NULL column reachable");
     }
 }
 
@@ -274,34 +258,28 @@ macro_rules! json_harness {
                 let index: usize = kani::any();
                 kani::assume(index <= 2);
                 let has_default: bool = kani::any();
-                // document: [leaf, "x"]  (index 0 -> leaf, index 1 -> a string, index 2 -> absent)
-                unsafe {
-                    PATTERN_MATCHED = false;
-                    JSON = Some(serde_json::Value::Array(vec![leaf, serde_json::Value::String(String::new())]));
-                }
+                // document: [leaf, ""]  (index 0 -> leaf, index 1 -> a string, index 2 -> absent)
+                let input = parsing_input(false, &[], serde_json::Value::Array(vec![leaf, serde_json::Value::String(String::new())]));
                 let default = if has_default { Some(match $tyk { 0 => Value::Int(7), 1 => Value::Float(Float(7.0)), 2 => Value::Bool(true), _ => Value::String(String::new()) }) } else { None };
-                let column = json_column(JsonAccess::Array { index, inner: None }, $ty, default);
-                let table = ManuallyDrop::new(TableDefinition::new("t", Vec::new(), vec![column]).unwrap());
-                let row = ManuallyDrop::new(table.extract(""));
-                let c = row.columns.get(0);
+                let column = ManuallyDrop::new(json_column(JsonAccess::Array { index, inner: None }, $ty, default));
+                let value = ManuallyDrop::new(column.parsing.extract(&column, &input));
+                let c: &Value = &value;
                 if index == 2 {
-                    // path absent: DEFAULT or NULL
-                    if has_default { assert!(c.is_some() && !c.unwrap().is_null(), "C02 DEFAULT when the path is absent"); }
-                    else { assert!(c.is_none() || c.unwrap().is_null(), "C02 NULL when the path is absent"); }
+                    if has_default { assert!(!c.is_null(), "C02 DEFAULT when the path is absent"); }
+                    else { assert!(c.is_null(), "C02 NULL when the path is absent"); }
                 } else if index == 1 {
-                    // a JSON string: TEXT yields it, every other type NULL (no coercion; DEFAULT is not used)
-                    if $tyk == 3 { assert!(matches!(c, Some(Value::String(_))), "C02 TEXT only from strings"); }
-                    else { assert!(c.is_none() || c.unwrap().is_null(), "C02 NULL when the JSON value has another type"); }
+                    if $tyk == 3 { assert!(matches!(c, Value::String(_)), "C02 TEXT only from strings"); }
+                    else { assert!(c.is_null(), "C02 NULL when the JSON value has another type (DEFAULT is not used)"); }
                 } else {
                     let ok = match ($tyk, kind) {
-                        (0, 2) => matches!(c, Some(Value::Int(x)) if *x == i),
-                        (0, 3) => if u <= i64::MAX as u64 { matches!(c, Some(Value::Int(x)) if *x == u as i64) } else { c.is_none() || c.unwrap().is_null() },
-                        (1, 2) => matches!(c, Some(Value::Float(x)) if x.0 == i as f64),
-                        (1, 3) => matches!(c, Some(Value::Float(x)) if x.0 == u as f64),
-                        (1, 4) => matches!(c, Some(Value::Float(x)) if x.0 == f),
-                        (2, 1) => matches!(c, Some(Value::Bool(x)) if *x == b),
-                        (3, 5) => matches!(c, Some(Value::String(_))),
-                        _ => c.is_none() || c.unwrap().is_null(),
+                        (0, 2) => matches!(c, Value::Int(x) if *x == i),
+                        (0, 3) => if u <= i64::MAX as u64 { matches!(c, Value::Int(x) if *x == u as i64) } else { c.is_null() },
+                        (1, 2) => matches!(c, Value::Float(x) if x.0 == i as f64),
+                        (1, 3) => matches!(c, Value::Float(x) if x.0 == u as f64),
+                        (1, 4) => matches!(c, Value::Float(x) if x.0 == f),
+                        (2, 1) => matches!(c, Value::Bool(x) if *x == b),
+                        (3, 5) => matches!(c, Value::String(_)),
+                        _ => c.is_null(),
                     };
                     assert!(ok, "C02 the column holds the addressed JSON value typed without coercion, NULL on a type mismatch (DEFAULT is not used)");
                 }
@@ -324,22 +302,16 @@ extraction_proof! {
         let i0: usize = kani::any();
         let i1: usize = kani::any();
         kani::assume(i0 <= 2 && i1 <= 2);
-        unsafe {
-            PATTERN_MATCHED = false;
-            JSON = Some(serde_json::Value::Array(vec![
-                serde_json::Value::Array(vec![leaf, serde_json::Value::Bool(true)]),
-                serde_json::Value::Number(serde_json::Number::from(5i64))]));
-        }
+        let input = parsing_input(false, &[], serde_json::Value::Array(vec![
+            serde_json::Value::Array(vec![leaf, serde_json::Value::Bool(true)]),
+            serde_json::Value::Number(serde_json::Number::from(5i64))]));
         let access = JsonAccess::from_linear(vec![JsonAccess::Array { index: i0, inner: None }, JsonAccess::Array { index: i1, inner: None }]);
-        let column = json_column(access, ValueType::Int, None);
-        let table = ManuallyDrop::new(TableDefinition::new("t", Vec::new(), vec![column]).unwrap());
-        let row = ManuallyDrop::new(table.extract(""));
-        let c = row.columns.get(0);
+        let column = ManuallyDrop::new(json_column(access, ValueType::Int, None));
+        let value = ManuallyDrop::new(column.parsing.extract(&column, &input));
         if i0 == 0 && i1 == 0 && kind == 2 {
-            assert!(matches!(c, Some(Value::Int(x)) if *x == i), "C02 a nested path addresses exactly that element");
+            assert!(v_int(&value) == Some(i), "C02 a nested path addresses exactly that element");
         } else {
-            // every other path is absent, leads through a non-array, or ends at a non-integer
-            assert!(c.is_none() || c.unwrap().is_null(), "C02 NULL when the path is absent or the value has another type");
+            assert!(value.is_null(), "C02 NULL when the path is absent or the value has another type");
         }
         kani::cover!(i0 == 0 && i1 == 0 && kind == 2, "c02 nested: hit reachable");
         kani::cover!(i0 == 1, "c02 nested: through a number reachable");
